@@ -45,7 +45,7 @@ pub struct ExecCfg {
 }
 impl Default for ExecCfg {
     fn default() -> Self {
-        ExecCfg { cancel_inject: false, may_stick: false, step_limit: 3000 }
+        ExecCfg { cancel_inject: false, may_stick: false, step_limit: 500 }
     }
 }
 
@@ -169,7 +169,7 @@ pub fn snapshot_set(s: u32, at: &'static str) {
 pub fn fatal_in_wait(kind: &str) -> ! {
     let what = host::with(|h| h.trap.clone());
     eprintln!("RT-HOST-FATAL kind={kind} trap={what:?}");
-    crate::crash::emergency(if kind == "stuck" { 1001 } else { 1002 })
+    crate::runner::emergency_finish()
 }
 
 fn note_code(t: u32, code: u32) {
@@ -203,6 +203,12 @@ fn note_code(t: u32, code: u32) {
     });
     if code != 0 {
         snapshot_task(t, "return");
+    }
+    // registrations of the *other* suspended tasks must stay consistent too
+    // (an operation may have moved away from them during this callback)
+    let others: Vec<u32> = host::with(|h| h.tasks[1..].iter().filter(|o| o.id != t && o.ctx != 0 && matches!(o.st, TaskSt::Yielded | TaskSt::Waiting(_))).map(|o| o.id).collect());
+    for o in others {
+        snapshot_task(o, "other-task-returned");
     }
 }
 
@@ -336,13 +342,18 @@ pub fn run(defs: Vec<TaskDef>, cfg: &ExecCfg) -> RunEnd {
         }
     }
 
-    // whatever is still suspended can never be resumed by an event
-    if !host::with(|h| h.violated()) && end.panic.is_none() && !end.step_limit_hit {
+    // whatever is still suspended can never be resumed by an event; the host
+    // cancels it so that its destructors run (after a trap the host answers
+    // leniently, so this also tears down a violated execution)
+    if end.panic.is_none() && !end.step_limit_hit {
+        let violated = host::with(|h| h.violated());
         let left: Vec<u32> = host::with(|h| h.tasks[1..].iter().filter(|t| matches!(t.st, TaskSt::Yielded | TaskSt::Waiting(_))).map(|t| t.id).collect());
-        end.stuck = left.clone();
+        if !violated {
+            end.stuck = left.clone();
+        }
         host::with(|h| h.log.push(Ev::Note("end-of-schedule", left.len() as u64)));
         for t in left {
-            if end.panic.is_some() || host::with(|h| h.violated()) {
+            if end.panic.is_some() {
                 break;
             }
             end.cleanup_cancelled.push(t);
